@@ -983,6 +983,10 @@ def c13(tier, seed):
             for ec in ("0", "1"):
                 for backing in ({"MIMALLOC_ARENA_EAGER_COMMIT": "1"}, {"MIMALLOC_ARENA_EAGER_COMMIT": "0"}, {"MIMALLOC_DISALLOW_ARENA_ALLOC": "1"}):
                     vectors.append(dict({"MIMALLOC_PURGE_DELAY": pd, "MIMALLOC_PURGE_DECOMMITS": dec, "MIMALLOC_EAGER_COMMIT": ec}, **backing))
+    # forced abandonment of a thread's own segments (per-thread segment target), alone and with reclaim-on-free / without arenas
+    for tv in ({"MIMALLOC_TARGET_SEGMENTS_PER_THREAD": "2"}, {"MIMALLOC_TARGET_SEGMENTS_PER_THREAD": "4"}, {"MIMALLOC_TARGET_SEGMENTS_PER_THREAD": "2", "MIMALLOC_ABANDONED_RECLAIM_ON_FREE": "1"},
+               {"MIMALLOC_TARGET_SEGMENTS_PER_THREAD": "3", "MIMALLOC_DISALLOW_ARENA_ALLOC": "1"}):
+        vectors.append(dict(tv)); vectors.append(dict(tv, MIMALLOC_PURGE_DELAY="0"))
     profiles = ["general", "aligned", "zero", "realloc", "walk"]
     ops = tier_n(tier, 2500, 6000)
     cases = []; idx = 0
@@ -997,6 +1001,7 @@ def c13(tier, seed):
                 if vec.get("MIMALLOC_TARGET_SEGMENTS_PER_THREAD", "0") != "0":
                     # forced abandonment: live blocks may sit in segments the thread was made to abandon; they are visible through mi_abandoned_visit_blocks only
                     env["MIMALLOC_VISIT_ABANDONED"] = "1"; args += ["--abandon-ok", 1]
+                    if "--threads" not in args and prof != "walk": args += ["--threads", 1]      # remote frees parked on the delayed list meet forced abandonment
                 cases.append(_drv_case(prop, "C13-v%d-%s-%s-%d" % (vi, prof, v, s), v, args, env=env, timeout=300, meta={"vector": vi, "profile": prof, "config": envname(vec), "seed": s}))
     v = Verdict(prop)
     # under a non-default option vector every C01-C05/C12 oracle refutes C13 as well (the statement: "the guarantees above hold unchanged under every supported option setting")
